@@ -28,6 +28,9 @@ s_bc_abc   == <<98, 46, 99, 44, 97, 98, 46, 99>>  \* "b.c,ab.c"
 s_g_fg     == <<103, 44, 102, 103>>       \* "g,fg"
 s_f_g      == <<102, 44, 103>>            \* "f,g"
 s_x_f_fg   == <<120, 44, 102, 44, 102, 103>> \* "x,f,fg"
+\* lists in which a name first occurs inside a longer alternative
+s_fg_g     == <<102, 103, 44, 103>>       \* "fg,g"
+s_abc_bc   == <<97, 98, 46, 99, 44, 98, 46, 99>>  \* "ab.c,b.c"
 s_re_a     == <<94, 97>>                  \* "^a"
 s_re_b     == <<98>>                      \* "b"      (unanchored: ab.c, b.c)
 s_re_ddc   == <<94, 46, 46, 99, 36>>      \* "^..c$"  (a.c, b.c; not ab.c)
@@ -74,8 +77,9 @@ U2Sites == { <<s_ac, s_f, 1, 4, s_xyz>>, <<s_ac, s_f, 2, 4, s_xyz>>,
 U2Rules == { <<FILE, s_star, 0, 5>>, <<FUNC, s_star, 3, 8>>,
              <<FILE, s_ac, 0, 7>>, <<FILE, s_ac, 0, 4>>, <<FILE, s_bc_abc, 0, 6>>, <<FILE, s_ac_bc, 5, 7>>,
              <<FUNC, s_f, 0, 7>>, <<FILE, s_f, 0, 7>>, <<FUNC, s_f_g, 0, 6>>, <<FUNC, s_x_f_fg, 2, 4>>, <<FUNC, s_g_fg, 0, 7>>,
+             <<FUNC, s_fg_g, 0, 7>>, <<FILE, s_abc_bc, 0, 7>>,
              <<FORMAT, s_yz, 0, 7>>, <<FORMAT, s_x, 0, 7>>, <<FORMAT, s_xz, 0, 8>> }
-U2TRules == { <<FILE, s_ac, 0, 7>>, <<FUNC, s_g_fg, 0, 6>>, <<FORMAT, s_yz, 0, 7>>, <<FILE, s_star, 0, 4>>, <<FILE, s_g_fg, 0, 6>> }
+U2TRules == { <<FUNC, s_fg_g, 0, 7>>, <<FILE, s_ac, 0, 7>>, <<FUNC, s_g_fg, 0, 6>>, <<FORMAT, s_yz, 0, 7>>, <<FILE, s_star, 0, 4>>, <<FILE, s_g_fg, 0, 6>> }
 
 (* U3: regular expressions against the exact filters *)
 U3Sites == { <<s_ac, s_f, 1, 4, s_xyz>>, <<s_ac, s_f, 2, 4, s_xyz>>,
